@@ -69,6 +69,19 @@ void xfemmVerifLogResidual(CBigLinProb &L, int rc)
     fprintf(fp,"SOLVE real n=%i precision=%.17g relres=%.17g rc=%i\n", L.n, L.Precision, (bb>0)? sqrt(rr/bb) : sqrt(rr), rc);
     fclose(fp);
 }
+void xfemmVerifDumpSolution(CBigLinProb &L)
+{
+    // the solution PCGSolve returns, appended to the system dump: it is the previous iterate of the next nonlinear pass
+    const char *fn = getenv("XFEMM_VERIF_DUMPSYS");
+    if (!fn) return;
+    FILE *fp = fopen(fn,"at");
+    if (!fp) return;
+    fprintf(fp,"SOL real %i\n", L.n);
+    for (int i=0; i<L.n; i++)
+        fprintf(fp,"V %i x%016llX\n", i, xfemmVerifBits(L.V[i]));
+    fprintf(fp,"ENDSOL\n");
+    fclose(fp);
+}
 }
 #endif
 
@@ -282,6 +295,7 @@ bool CBigLinProb::PCGSolve(int flag)
     xfemmVerifDumpSystem(*this);
     bool rc = PCGSolveImpl(flag);
     xfemmVerifLogResidual(*this, rc);
+    xfemmVerifDumpSolution(*this);
     return rc;
 }
 bool CBigLinProb::PCGSolveImpl(int flag)
